@@ -40,7 +40,12 @@ def t3(rep, tier, seed):
         variants.append(("--prepipex gunzip <", ["--prepipex", "gunzip <"] + argv + [fn + ".gz"], None))
         variants.append(("--prepipe cat", ["--prepipe", "cat"] + argv + [fn], None))
         variants.append(("batch 1", ["--records-per-batch", "1"] + argv + [fn], None))
+        reps = 12 if tier == "quick" else 80     # sources that involve a child process are raced repeatedly
+        runs = []
         for name, av, stdin in variants:
+            for k in range(reps if "prepipe" in name else 1):
+                runs.append((name, av, stdin))
+        for name, av, stdin in runs:
             got = t3util.run(mlr, av, stdin=stdin)
             counts["sources"] += 1
             if got[0] != 0 or norm(got[1]) != norm(ref[1]):
@@ -83,12 +88,11 @@ def t3(rep, tier, seed):
             rep.violation("spec", "reading files f1..fn is not the concatenation of reading each alone (FNR, FILENUM, field names per file, final NR)",
                           {"argv": ["mlr"] + prog + ["m0.csv..m4.csv"], "inputs": [t.decode() for t in texts], "observed": allf[1].decode()[:600], "wanted_lines": want, "exit": allf[0]}, True)
         # NF is the current field count even mid-expression
-        nf = t3util.run(mlr, ["-n", "put", "end{m = {}; $* = {\"a\":1,\"b\":2}; x = NF; $c = 3; y = NF; unset $a; z = NF; $*=mapdiff($*, {\"b\":0}); w = NF; print x.\",\".y.\",\".z.\",\".w}"])
         nf2 = t3util.run(mlr, ["--icsv", "--ojson", "put", "$n1 = NF; $n2 = NF; unset $a; $n3 = NF", fn])
-        counts["nf"] += 2
+        counts["nf"] += 1
         first = nf2[1].decode().split("}")[0]
-        if nf[0] != 0 or nf[1].strip() != b"2,3,2,1" or '"n1": 2' not in first or '"n2": 3' not in first or '"n3": 3' not in first:
-            rep.violation("spec", "NF is not the current field count mid-expression", {"observed": [nf[1].decode(), first], "wanted": ["2,3,2,1", "n1=2 n2=3 n3=3"]}, True)
+        if nf2[0] != 0 or '"n1": 2' not in first or '"n2": 3' not in first or '"n3": 3' not in first:
+            rep.violation("spec", "NF is not the current field count mid-expression", {"observed": first, "wanted": "n1=2 n2=3 n3=3"}, True)
     finally:
         shutil.rmtree(base, ignore_errors=True)
     rep.coverage.setdefault("t3", {}).update(counts)
